@@ -18,7 +18,7 @@ ASSUMPTIONS = ["scope is the property's own: single-action final strategies on t
                "checked exactly; out-of-scope solves are skipped and counted",
                "band delta*T_max(s) + eps on both diagnostics"]
 TIMEOUT = 1800
-TABLE = [("G-ACYW", 700), ("G-CYCW", 700), ("G-LEX", 400), ("G-DEAD", 400), ("G-P2MIN", 500), ("G-SLOW", 80), ("G-TINYB", 300), ("G-AUXFAST", 40), ("G-P2NEST", 400), ("G-CORR", 400), ("G-GAP", 150), ("G-RETRY", 400)]
+TABLE = [("G-ACYW", 700), ("G-CYCW", 700), ("G-LEX", 400), ("G-DEAD", 400), ("G-P2MIN", 500), ("G-SLOW", 80), ("G-TINYB", 300), ("G-AUXFAST", 40), ("G-P2NEST", 400), ("G-CORR", 400), ("G-GAP", 150), ("G-RETRY", 400), ("G-FINREP", 100)]
 
 
 def plan(tier, seed):
@@ -158,6 +158,26 @@ def decide(gd, idx, cls):
         problems += [dict(p, mode=mode) for p in pr]
     if not inscope:
         return sc.skipped(idx, "no solve in scope (ties / unsolved)")
+    if idx % 5 == 0 and not problems:
+        # the same diagnostics as the command line shows them: run_games' entries and its INFO log (the only report without -s)
+        # must state the two vectors solve() returned - each under its own label
+        cr = monitors.mods()["conditionalrewards"]
+        rr = None
+        with monitors.budget(sc.limit_for(an) * 3):
+            try:
+                with monitors.capture_log() as cl:
+                    rr = cr.run_games({"g": games.to_solver(gd)})
+            except monitors.StepBudgetExceeded:
+                rr = None
+            finally:
+                monitors.MON.metering = False
+        if rr is not None:
+            res["stats"]["run_games_logs_checked"] = 1
+            for prune, key in ((True, "g"), (False, "g_no_prune")):
+                if outs[prune].status == "ok" and rr[key]["msg"] == "Game solved":
+                    if rr[key]["prob_min_rew"] != outs[prune].result[6] or rr[key]["rew_min_reach"] != outs[prune].result[7]:
+                        problems.append({"problem": "run_games reports other diagnostics than solve()", "mode": key, "got": [rr[key]["prob_min_rew"], rr[key]["rew_min_reach"]]})
+            problems += [dict(q, mode="INFO log", got=q.get("log"), true=q.get("computed")) for q in monitors.check_log_against(cl.blocks(), rr)]
     if problems:
         p = problems[0]
         res.update(verdict="violated", what="%s (state %s, %s): got %s, exact %s" % (p["problem"], p.get("state"), p["mode"], p.get("got"), p.get("true")),
